@@ -28,7 +28,11 @@ EnvSet(pals, oris, spins) ==
   \cup {e \in {[c |-> c, fc |-> 0, sp |-> 0, hint |-> h, nb |-> Nb(p, m), ori |-> o] :
                    c \in CentreEls, h \in 0..3, m \in Singles, p \in pals, o \in oris} :
             Len(e.nb) + e.hint <= 4}       \* a drawing hint on an organic-like centre: at most four substituents in all
-EnvsQ == EnvSet({1}, {"gen", "zup"}, {-1, 0, 2})
+(* the exact +-z orientations matter where molli derives its direction from ONE neighbour *)
+EnvsQ == EnvSet({1}, {"gen"}, {-1, 0, 2}) \cup {e \in EnvSet({1}, {"zup"}, {-1, 0, 2}) : Len(e.nb) = 1}
+(* small table for histories (Query / Rewire before the calls): centres with 2..3 neighbours *)
+EnvsH == {e \in EnvSet({1}, {"gen"}, {0}) : e.c \in {"C", "N", "B"} /\ e.fc = 0 /\ e.hint < 0 /\ Len(e.nb) >= 2
+                                              /\ \A k \in DOMAIN e.nb : e.nb[k].bt \in {"Single", "Double", "Aromatic"}}
 EnvsT == EnvSet({1, 2, 3}, {"gen", "zup", "zdn"}, Spins)
 EnvsS == {e \in EnvSet({1}, {"gen"}, {0, 1}) : e.c \in {"C", "N", "O"}}       \* small table for the deviation runs
 
@@ -45,6 +49,7 @@ DevLength == {"WrongLength"}
 DevOrderZero == {"HBondOrderZero"}
 DevTwice == {"HBondedTwice"}
 DevShift == {"ShiftsCoords"}
+DevStale == {"StaleAdjacency"}
 
 View == sv
 ObsAtoms == [i \in DOMAIN atoms |-> [el |-> atoms[i].el, fc |-> atoms[i].fc, sp |-> atoms[i].sp,
